@@ -37,7 +37,7 @@ Fixpoint parse_f (fuel : nat) (bs : bytes) : option (list field) :=
           | Some (tag, r1) =>
               let num := tag / 8 in
               let wt := tag mod 8 in
-              if (num =? 0) || (2147483647 <? num) then None
+              if (num =? 0) || (536870911 <? num) then None   (* protowire.MaxValidNumber = 2^29 - 1 *)
               else if wt =? 0 then
                 match dec_varint r1 with
                 | None => None
@@ -71,7 +71,7 @@ Definition parse (bs : bytes) : option (list field) := parse_f (length bs) bs.
 
 (* Fields an encoder of this code base produces. *)
 Definition wf_field (f : field) : Prop :=
-  1 <= fst f /\ fst f <= 2147483647 /\
+  1 <= fst f /\ fst f <= 536870911 /\
   match snd f with
   | VInt n => n < 2 ^ 64
   | VBytes b => N.of_nat (length b) < 2 ^ 64
@@ -96,7 +96,7 @@ Definition parse_body (f : nat) (bs : bytes) : option (list field) :=
   | Some (tag, r1) =>
       let num := tag / 8 in
       let wt := tag mod 8 in
-      if (num =? 0) || (2147483647 <? num) then None
+      if (num =? 0) || (536870911 <? num) then None   (* protowire.MaxValidNumber = 2^29 - 1 *)
       else if wt =? 0 then
         match dec_varint r1 with
         | None => None
@@ -137,8 +137,8 @@ Proof.
   intros (Hlo & Hhi & Hv). destruct f as [num v]. cbn [fst snd] in *.
   assert (Htag : forall w, w < 8 -> num * 8 + w < 2 ^ 64).
   { intros w Hw. change (2 ^ 64) with 18446744073709551616. lia. }
-  assert (Hrange : (num =? 0) || (2147483647 <? num) = false).
-  { destruct (N.eqb_spec num 0); [lia|]. destruct (N.ltb_spec 2147483647 num); [lia|reflexivity]. }
+  assert (Hrange : (num =? 0) || (536870911 <? num) = false).
+  { destruct (N.eqb_spec num 0); [lia|]. destruct (N.ltb_spec 536870911 num); [lia|reflexivity]. }
   unfold enc_field; cbn [fst snd].
   destruct v as [n|b|b|b]; rewrite <- ?app_assoc;
     (rewrite parse_f_unfold by apply varint_app_nonempty); unfold parse_body.
